@@ -219,10 +219,12 @@ def ctl_send(ghost, packet):
     r = is_reply(packet)
     ghost.replies = ghost.replies + (1 if r else 0)
     ghost.last_op = packet.command_opcode if r else ghost.last_op
+    ghost.last_kind = (KIND_COMPLETE if isinstance(packet, hci.HCI_Command_Complete_Event) else KIND_STATUS) if r else ghost.last_kind
 
 
-CTL_GHOST = dict(replies=Int, last_op=Int)
-CTL_MOD = ['ghost.replies', 'ghost.last_op']
+KIND_COMPLETE, KIND_STATUS = 1, 2
+CTL_GHOST = dict(replies=Int, last_op=Int, last_kind=Int)
+CTL_MOD = ['ghost.replies', 'ghost.last_op', 'ghost.last_kind']
 
 
 def class_data_attributes(cls):
@@ -324,11 +326,11 @@ def sync_post(res, ghost, old):
 
 def async_post_for(op):
     """handler of an HCI_AsyncCommand class: exactly one Command Status, for this command's opcode"""
-    return lambda res, ghost, old: [res is None, ghost.replies == old.ghost.replies + 1, ghost.last_op == op]
+    return lambda res, ghost, old: [res is None, ghost.replies == old.ghost.replies + 1, ghost.last_op == op, ghost.last_kind == KIND_STATUS]
 
 
 SYNC_NAMES = ['returns-parameters', 'no-reply-by-handler']
-ASYNC_NAMES = ['returns-none', 'exactly-one-status', 'status-carries-the-opcode']
+ASYNC_NAMES = ['returns-none', 'exactly-one-status', 'status-carries-the-opcode', 'reply-is-a-command-status']
 # local containers mutated inside a loop need a declared type (uninterpreted here)
 HANDLER_LOOP_LOCALS = {'on_hci_le_set_cig_parameters_command': {1: {'handles': Any}}}
 
@@ -369,8 +371,8 @@ contract(
     profile='skeleton',
     params=dict(self=CTRL, status=IntRange(0, 255), op_code=IntRange(0, 0xFFFF)),
     ghost=CTL_GHOST,
-    ensures=lambda op_code, ghost, old: [ghost.replies == old.ghost.replies + 1, ghost.last_op == op_code],
-    ensures_names=['one-status', 'for-the-given-opcode'],
+    ensures=lambda op_code, ghost, old: [ghost.replies == old.ghost.replies + 1, ghost.last_op == op_code, ghost.last_kind == KIND_STATUS],
+    ensures_names=['one-status', 'for-the-given-opcode', 'is-a-command-status'],
     modifies=CTL_MOD,
     solver_procs=1,
 )
@@ -423,10 +425,17 @@ contract(
 # ---------------------------------------------------------------------------
 def packet_post(command, ghost, old):
     """exactly one Command Complete / Command Status leaves the controller and it carries the command's opcode"""
-    return [ghost.replies == old.ghost.replies + 1, ghost.last_op == command.op_code]
+    return [
+        ghost.replies == old.ghost.replies + 1,
+        ghost.last_op == command.op_code,
+        # the kind of reply the host waits for (Host.send_sync_command_raw asserts a Command Complete for a sync class
+        # unless the status is "unknown command"; send_async_command expects a Command Status)
+        implies(isinstance(command, hci.HCI_SyncCommand), ghost.last_kind == KIND_COMPLETE),
+        implies(isinstance(command, hci.HCI_AsyncCommand), ghost.last_kind == KIND_STATUS),
+    ]
 
 
-PACKET_NAMES = ['exactly-one-reply', 'reply-carries-the-opcode']
+PACKET_NAMES = ['exactly-one-reply', 'reply-carries-the-opcode', 'sync-class-gets-command-complete', 'async-class-gets-command-status']
 PACKET_TARGET = 'bumble.controller:Controller.on_hci_command_packet'
 PACKET_COMMON = dict(
     prop='C03',
